@@ -288,6 +288,22 @@ def run_rc(pid, tier, seed, replay=None):
                 cur = outs[w] + ".current"
                 if os.path.exists(cur):
                     hung.append(open(cur).read()[:600])
+                    if P.get("hang_seconds"):
+                        # for properties whose cases are a compile and a few scans of small buffers
+                        # (milliseconds), a case that does not finish alone, three times, within
+                        # hang_seconds is a non-terminating compile / scan: the code under test hangs
+                        hs = P["hang_seconds"]
+                        r3 = []
+                        for _ in range(3):
+                            try:
+                                subprocess.run(prlimit_cmd([exe, "--replay", cur] + base_args), env=env, stdout=subprocess.DEVNULL,
+                                               stderr=subprocess.DEVNULL, timeout=hs)
+                                r3.append(False)
+                                break
+                            except subprocess.TimeoutExpired:
+                                r3.append(True)
+                        if len(r3) == 3 and all(r3):
+                            violations.append((keep_failure(pid, cur), "the case does not terminate: 3 of 3 single runs were still busy after %d s" % hs))
                 continue
             if p.returncode not in (0, 10) or (p.returncode == 10 and not os.path.exists(outs[w])):
                 cur = outs[w] + ".current"
